@@ -1,6 +1,7 @@
 import Lean.Data.Json
 import PV.IC10.Parse
 import PV.Src.Lang
+import PV.Model.Labels
 /-! Driver commands that execute programs: `run-ic10`, `run-src`, `equiv`. -/
 namespace PV.DriverRun
 open Lean PV.IC10 PV.IC10.Parse
@@ -311,5 +312,34 @@ def wf (j : Json) : Except String Json := do
     ("errors", Json.arr (errs.map (fun (i, e) => Json.arr #[Json.num (JsonNumber.fromNat i), Json.str e])).toArray),
     ("duplicate_labels", Json.arr (dups.eraseDups.map Json.str).toArray),
     ("lines", Json.num (JsonNumber.fromNat lines.length))])
+
+/-- text → lines of the label model (comments stripped, tokens; blank lines are instructions without tokens) -/
+def linesOfText (text : String) : List PV.Labels.Line :=
+  (splitLines text).map (fun l =>
+    let toks := tokenize l
+    match labelOf toks with
+    | some n => PV.Labels.Line.label n
+    | none => PV.Labels.Line.instr toks)
+
+/-- C05: is `numeric` (real output with labels removed) line for line `specRemove` of `labelled` (real output with labels kept)? -/
+def labelsCompare (j : Json) : Except String Json := do
+  let labelled ← j.getObjValAs? String "labelled"
+  let numeric ← j.getObjValAs? String "numeric"
+  let p := linesOfText labelled
+  let spec := PV.Labels.specRemove p
+  let real := (splitLines numeric).map tokenize
+  let defs := p.filterMap (fun l => match l with | .label n => some n | _ => none)
+  let dups := (defs.filter (fun n => PV.Labels.defCount n p > 1)).eraseDups
+  let jl (ls : List (List String)) := Json.arr (ls.map (fun t => Json.str (" ".intercalate t))).toArray
+  if spec.length != real.length then
+    pure (Json.mkObj [("verdict", Json.str "length"), ("spec", Json.num (JsonNumber.fromNat spec.length)), ("real", Json.num (JsonNumber.fromNat real.length)),
+                      ("duplicate_labels", Json.arr (dups.map Json.str).toArray)])
+  else
+    match (spec.zip real).zipIdx.find? (fun ((a, b), _) => a != b) with
+    | some ((a, b), i) => pure (Json.mkObj [("verdict", Json.str "differ"), ("line", Json.num (JsonNumber.fromNat i)),
+        ("spec", Json.str (" ".intercalate a)), ("real", Json.str (" ".intercalate b)), ("duplicate_labels", Json.arr (dups.map Json.str).toArray)])
+    | none => pure (Json.mkObj [("verdict", Json.str "same"), ("lines", Json.num (JsonNumber.fromNat spec.length)),
+        ("labels", Json.num (JsonNumber.fromNat defs.length)), ("duplicate_labels", Json.arr (dups.map Json.str).toArray),
+        ("spec_text", jl spec)])
 
 end PV.DriverRun
